@@ -260,12 +260,13 @@ def run(report, tier):
     report.trusted += ["Kani 0.68 / CBMC 6.11 (component storage on all f64 bit patterns)"]
     backends = ["f64", "dec"]
     import concurrent.futures as cf
-    frontend.dump_repo_parallel(backends)
+    keys = E.dump_worlds(backends, astro=False, fixture=True)
+    rgen.EXTRA_SRC = synthdefs.SYNTH_RS
     pool = mpool.Pool(jobs=max(2, common.ncpu() - 4))
     try:
         with cf.ThreadPoolExecutor(max_workers=1) as ex:
             fut = ex.submit(kani_part, report, tier)
-            desc = {be: pool.describe(be) for be in backends}
+            desc = E.describe_worlds(pool, keys)
             tasks = []
             for be in backends:
                 amt = "f64" if be == "f64" else "Decimal"
@@ -275,10 +276,15 @@ def run(report, tier):
                 for tq, pq in pairs:
                     for tu in desc[be]["units"][tq]:
                         tasks.append((be, tq, pq, tu))
+                # single-unit and small synthetic types (fixture crate expanded by the real macro), mixed with catalogue types
+                fx = "fix" + be
+                for tq, pq in [("Pile", "Dose"), ("Dose", "Pile"), ("Pile", "Duration"), ("Dose", "Duration"), ("Pile", "Pile")]:
+                    for tu in desc[fx]["units"][tq]:
+                        tasks.append((keys[fx], tq, pq, tu))
             E.shuffle(tasks)
             report.bounds.update({"f64_amount_box": "2^-250 <= |ta|,|pm| <= 2^250, v = 0 or in the same box; every intermediate proved zero-or-normal",
                                   "decimal_amount_box": "|.| <= 1e17, ta, pm != 0, paths without fpdec overflow",
-                                  "type_pairs": "quick: (Length,Duration), (Mass,AmountT), (AmountT,Duration), (Mass,Length); thorough adds (DataVolume,Duration), (Duration,DataVolume), (Length,AmountT), (Energy,Mass); all unit triples"})
+                                  "type_pairs": "quick: (Length,Duration), (Mass,AmountT), (AmountT,Duration), (Mass,Length), and with the synthetic single-unit Pile and 4-unit Dose: (Pile,Dose), (Dose,Pile), (Pile,Duration), (Dose,Duration), (Pile,Pile); thorough adds (DataVolume,Duration), (Duration,DataVolume), (Length,AmountT), (Energy,Mass); all unit triples"})
             cands = pool.run(report, task, tasks)
             pool.cross_check(report)
             E.native_confirm(report, "C13", cands, desc, oracle, probes=probes3)
